@@ -585,6 +585,9 @@ def streams_for(tier, enc, seed):
     for n in range(1, L + 1):
         for t in itertools.product(alpha, repeat=n):
             add("garbage", bytes(t), 2)
+    if not quick:
+        for t in itertools.product(alpha, repeat=L + 1):
+            add("garbage-long", bytes(t), -1)
     return [(k, d, lvl, sy) for d, (k, lvl, sy) in acc.items()]
 
 
@@ -635,6 +638,8 @@ def eval_stream(ctx, chk, enc, kind, data, lvl, sync):
     chk["C05/no-raise-progress"].case((enc, data), ok, d | {"kind": kind}, nt, smp)
     for n, ok, d, nt in ev_prefix(enc, data):
         chk["C05/prefix-stable"].case((enc, data, n), ok, d and d | {"kind": kind}, nt, smp)
+    if lvl < 0:  # decoder-level oracles only (no Screen)
+        return
     ok, d, nt = ev_names(ctx, enc, data)
     chk["C05/names"].case((enc, data), ok, d | {"kind": kind}, nt, smp)
     ok, d, nt = ev_frag(ctx, enc, data, (), ())
@@ -697,7 +702,7 @@ def bound_text(tier):
         f"3 encodings x [all {len(table_streams())} table sequences, X10 reports (128 button bytes x {3 if quick else 8} coordinate pairs), "
         f"SGR reports ({len(sgr_streams(tier))}), cursor reports ({len(cpr_streams(tier))}), all 256 single bytes and ESC+byte, UTF-8/double-byte characters valid and invalid, "
         f"{len(MALFORMED)} malformed/nested reports, every proper prefix of every sequence, all pairs of {len(unit_pool('utf8'))} representative units, "
-        f"all garbage strings of length <= {3 if quick else 4} over 12 representative bytes] x every 1-cut and (for the subset marked level 2: all in thorough except long SGR) every 2-cut split x timeout fired or not after each cut; "
+        f"all garbage strings of length <= {3 if quick else 4} over 12 representative bytes{'' if quick else ' (length 5: decoder-level oracles only)'}] x every 1-cut and (for the subset marked level 2: all in thorough except long SGR) every 2-cut split x timeout fired or not after each cut; "
         f"{1500 if quick else 40000} seeded random streams per encoding with 3 cuts; real Screen on an os.pipe with a scripted event loop"
     )
 
